@@ -45,7 +45,8 @@ def classify(ev: Event) -> Tuple[str, str]:
         return "decoded", f"factors={type(f).__name__} dimension={type(d).__name__} are not derived from operands"
     want = rename(f.mono, "F:", "D:")
     signed = any(a.endswith("+") or a.endswith("-") for a, _ in f.mono)
-    if want != d.mono:
+    from ..algebra import mono_equal_mod
+    if not mono_equal_mod(d.mono, want, "D", getattr(ev, "trivial", None)):
         return "bad", (f"factor component {f.mono} and dimension component {d.mono} are different group "
                        "expressions over the operands")
     if signed and "fold" not in d.flags:
@@ -121,7 +122,8 @@ def check_root_guard(rep: Report, prog: Program, resolver: Resolver, qual: str) 
     cfg = CFG(fn)
     dom = cfg.dominators()
     # guards: If statements that end in raise, with the exactness facts their test implies
-    guards: List[Tuple[ast.If, List[Tuple[str, str, List[str], ast.AST]]]] = []
+    guards: List[Tuple[ast.AST, List[Tuple[str, str, List[str], ast.AST]]]] = []
+    from ..absint import Interp
     for st in ast.walk(fn):
         if not (isinstance(st, ast.If) and st.body and isinstance(st.body[-1], ast.Raise)):
             continue
@@ -149,8 +151,26 @@ def check_root_guard(rep: Report, prog: Program, resolver: Resolver, qual: str) 
                             cont = _norm(ast.unparse(g.iter))
                             flt = flt + [_norm(ast.unparse(x)) for c in g.ifs for x in _flatten_and(c)]
                         facts.append((cont, div, flt, node))
+        # the same test written as an explicit validation loop: for v in C: if <exactness>: raise
+        anchor: ast.AST = st
+        loop = getattr(st, "_parent", None)
+        extra_conds: List[str] = []
+        while isinstance(loop, ast.If):
+            extra_conds += [_norm(ast.unparse(x)) for x in _flatten_and(loop.test)]
+            loop = getattr(loop, "_parent", None)
+        if isinstance(loop, ast.For) and Interp._guard_only(loop.body) and not loop.orelse:
+            lvars = [x.id for x in ast.walk(loop.target) if isinstance(x, ast.Name)]
+            lifted = []
+            for cont, div, flt, node in facts:
+                if cont.startswith("scalar:") and cont[len("scalar:"):] in lvars:
+                    own = [_norm(ast.unparse(x)) for x in _flatten_and(st.test)
+                           if not any(isinstance(y, ast.BinOp) and isinstance(y.op, ast.FloorDiv) for y in ast.walk(x))]
+                    lifted.append((_norm(ast.unparse(loop.iter)), div, flt + own + extra_conds, node))
+            if lifted:
+                facts = lifted
+                anchor = loop
         if facts:
-            guards.append((st, facts))
+            guards.append((anchor, facts))
     divs = [(n, comp) for n, comp, cmp in _floor_divs(fn) if cmp is None]
     if not divs:
         raise AnalysisError(f"{qual}: no floor division found (R01.2 anchor moved)")
